@@ -10,7 +10,7 @@ use crate::seq::Seq;
 use crate::world::*;
 use std::time::Duration;
 
-const LIMITS: [i32; 10] = [1, 2, 999, 1000, 1001, 65535, 65536, 65537, 131071, i32::MAX];
+const LIMITS: [i32; 12] = [1, 2, 999, 1000, 1001, 65535, 65536, 65537, 131071, 131072, 196608, i32::MAX];
 const BACKLOGS_ALL: [usize; 10] = [0, 1, 2, 999, 1000, 1001, 65535, 65536, 65537, 70000];
 const BACKLOGS_QUICK: [usize; 7] = [0, 1, 2, 999, 1000, 1001, 3000];
 const STREAM_LIMITS: [i64; 4] = [1, 2, 1000, 65535];
